@@ -411,6 +411,28 @@ def check(ctx):
         if ok:
             ok = lib.originates_from_arg(rr, pc[0][1]["args"][0], 1, (".0", ".2")) and lib.originates_from_arg(rr, pc[0][1]["args"][2], 1, (".0", ".1")) \
                 and lib.originates_from_arg(rr, rt[0][1]["args"][0], 1, (".0", ".0")) and lib.originates_from_call(rr, rt[0][1]["args"][2], pc[0][0])
+            if not ok and lib.originates_from_call(rr, rt[0][1]["args"][2], pc[0][0]):
+                # the input is a record instead of the pinned tuple: each of the three values comes from the input, from
+                # three different parts of it, and the input has exactly one part of type ReactorMode and one of type
+                # SystemCommand (so the type-checked call can only have received *the* mode and *the* system)
+                ops3 = [pc[0][1]["args"][0], pc[0][1]["args"][2], rt[0][1]["args"][0]]
+                o3 = [origins(rr, o) for o in ops3]
+                parts = [frozenset(tuple(x[2:]) for x in os_) for os_ in o3]
+                from_input = all(os_ and all(x[0] == "arg" and x[1] == 1 for x in os_) for os_ in o3)
+                ity = rr.local_ty(1)
+                ftys = None
+                m_ = re.match(r"^bevy_ecs::system::(?:input::)?In<(.*)>$", ity)
+                inner = m_.group(1) if m_ else ity
+                if inner.startswith("("):
+                    import inline as INL
+                    ftys = INL._split_args(inner[1:-1])
+                else:
+                    adt = next((a for a in prog.facts.get("adts", []) if a["path"] == re.sub(r"<.*$", "", inner)), None)
+                    if adt is not None and len(adt.get("variants", [])) == 1:
+                        ftys = [f["ty"] for f in adt["variants"][0]["fields"]]
+                uniq = ftys is not None and sum(1 for t_ in ftys if t_.endswith("ReactorMode")) == 1 \
+                    and sum(1 for t_ in ftys if t_.endswith("SystemCommand")) == 1
+                ok = from_input and uniq and len(set(parts)) == 3 and all(len(p) == 1 for p in parts)
             cnt, _, _ = lib.event_counts(rr, [rt[0][0]])
             ok = ok and cnt == {1}
         ctx.check(ok, "C01.a", "register_reactors:registers-given-bundle-with-prepared-handle", "%s:%d" % (rr.file, rr.line),
